@@ -106,6 +106,73 @@ def proc_cases(rng):
             yield proc(4, 1, n=n, **kw)
 
 
+S_LIMIT, C_LIMIT = 1 << 20, 1 << 24     # maxServerResponseSize, maxClientResponseSize as shipped (the model uses the
+                                         # values regenerated from the code; these only place the windows)
+
+
+def limit(size, body=0, n=2, tls=0):
+    """the scripted server announces `size` bytes and then delivers a valid response of that size (body=1) or
+    nothing: outcome per case, returned, stdout read beyond the prefix"""
+    return ["c11.limit", size, body, n, tls]
+
+
+def limit_cases(rng, tier):
+    # the window around the server limit, with and without a body behind the prefix
+    for size in (S_LIMIT - 1, S_LIMIT, S_LIMIT + 1, S_LIMIT + 2):
+        for body in (0, 1):
+            yield limit(size, body, n=rng.choice([1, 2, 3]), tls=body)
+    # between the two limits and around the client's: refused at the prefix; the body (2 - 16 MB) is built by
+    # the harness only if the code asks for it, i.e. never on a correct tree
+    for size in (2 * S_LIMIT, 2 * S_LIMIT + 7, C_LIMIT - 1, C_LIMIT, C_LIMIT + 1):
+        yield limit(size, 0, n=2)
+        yield limit(size, 1, n=rng.choice([0, 3]), tls=1)
+    yield limit(200, 1, n=3, tls=1)
+    yield limit(70000, 1, n=1)
+    for _ in range(12 if tier == "quick" else 60):
+        size = rng.choice([rng.randint(1, 4 * S_LIMIT), rng.randint(S_LIMIT + 1, C_LIMIT), rng.randint(1, S_LIMIT)])
+        yield limit(size, 0, n=rng.randint(0, 4), tls=rng.randrange(2))
+    for _ in range(4 if tier == "quick" else 20):
+        yield limit(rng.randint(S_LIMIT + 1, C_LIMIT), 1, n=rng.randint(1, 3), tls=1)
+
+
+PCT_NAMES = ["Pct/100%", "Pct/%s done", "Pct/50%d", "Pct/%%", "Pct/%v/%41%42", "Pct/a%!b", "Pct/%", "Pct/%5.2f x"]
+PMSGS = ["expected HTTP version 1; instead got 2", "m1", "x: y", "100% wrong", "got %s", "%d", "trailing  ", "a\tb", ""]
+
+
+def printer(names, progs, rounds=1, mode=0):
+    """goroutines (one list of (prefix, message) each) print through ONE real printer into the stderr the real
+    runTestCasesForServer parses; mode bit 0: messages without '%' are passed as the format itself; mode >= 2: the
+    writer does not sleep"""
+    return ["c11.printer", list(names), [[[p, m] for p, m in g] for g in progs], rounds, mode]
+
+
+def printer_cases(rng, tier):
+    plain = ["S/a", "S/b", "T/c", "T/d", "U/e e", "V/g/h", "X/i:1"]
+    for k in range(26 if tier == "quick" else 120):
+        pool = PCT_NAMES if k % 3 == 0 else (plain if k % 3 == 1 else plain + PCT_NAMES)
+        batch = rng.sample(pool, rng.randint(3, min(6, len(pool))))
+        ng = rng.randint(3, 4)
+        owners = list(batch)
+        rng.shuffle(owners)
+        progs = [[] for _ in range(ng)]
+        for i, nm in enumerate(owners):                      # every batch name: at most one line, so that the record
+            if rng.random() < 0.85:                          # does not depend on the order of the lines
+                progs[i % ng].append((nm, rng.choice(PMSGS[:-1])))
+        others = ["referenceserver", "Q/zz", "panic", "Pct/other%d", "x%"]
+        for g in progs:
+            for _ in range(rng.randint(0, 2)):
+                g.insert(rng.randint(0, len(g)), (rng.choice(others), rng.choice(PMSGS)))
+        for g in progs:
+            if not g:
+                g.append((rng.choice(others), "filler"))
+        yield printer(batch, progs, rounds=1 if k % 4 else 2, mode=k % 2)
+    # without the sleeping writer: plain contention
+    for k in range(6 if tier == "quick" else 30):
+        batch = ["S/a", "S/b", "T/c", "Pct/100%", "Pct/%s done"]
+        progs = [[(nm, "feedback for " + nm)] + [("noise%d" % g, "line %d" % j) for j in range(20)] for g, nm in enumerate(batch)]
+        yield printer(batch, progs, rounds=1, mode=2 + k % 2)
+
+
 def cs(n, answers=None, delays=None, senderr=None, names=None, feedback=None, reports=None):
     names = names or NAMES
     out = []
@@ -124,11 +191,11 @@ LINE_SHAPES = [b"S/a: m1", b"S/b: m2", b"S/a: again", b"Q/zz: not in the batch",
 class C11(Prop):
     id = "C11"
     props = "C11_Props"
-    coq_files = ("Base", "C11_Consts", "C11_Proc", "C11_Start", "C11_Model", "C11_Spec", "C11_Proofs", "C11_ProcProofs",
-                 "C11_StartProofs", "C11_Props")
+    coq_files = ("Base", "C11_Consts", "C11_Proc", "C11_Start", "C11_Printer", "C11_Model", "C11_Spec", "C11_Proofs",
+                 "C11_ProcProofs", "C11_StartProofs", "C11_PrinterProofs", "C11_Props")
     models = ("C11_Model",)
     packages = {"cc": "internal/app/connectconformance"}
-    kinds = {"c11.batch": "cc", "c11.proc": "cc"}
+    kinds = {"c11.batch": "cc", "c11.proc": "cc", "c11.limit": "cc", "c11.printer": "cc"}
     consts = ("cc",)
     go_timeout = 1500
     rule = ("c11.batch drives the real runTestCasesForServer with a scripted server process and a scripted clientRunner. "
@@ -162,7 +229,15 @@ class C11(Prop):
             "(nil, exit status, signal, context.Canceled, gave up, deadline, own error), child gone at return (kill(pid,0)), "
             "forced closes, passes recorded. The three durations are regenerated from the compiled code into C11_Consts.v "
             "(gracefulShutdownPeriod; cmd.WaitDelay read from a started exec.Cmd) and abort_bounded_code is re-proved against "
-            "them. thorough: the same cases again under the race detector.")
+            "them. c11.printer (32 cases): free-running goroutines print feedback lines through ONE real internal.NewPrinter "
+            "(PrefixPrintf(test name, ...)) into a synchronous pipe that is the stderr the real runTestCasesForServer parses "
+            "(the runner's error printer is the real one too); test names with %, %s, %d, %%, %v; a writer that sleeps while "
+            "the mutex is held forces sync.Mutex into hand-off mode; compared: side-band record per case, passed-through "
+            "lines as a sorted list (schedule-independent for an atomic printer: printer_feedback_attributed). c11.limit (41 "
+            "cases): the scripted server announces a size in the windows around maxServerResponseSize / maxClientResponseSize "
+            "(both regenerated into C11_Consts.v) and delivers a valid response of exactly that size or nothing; compared: "
+            "outcome and count per case, returned, stdout read beyond the four prefix bytes. "
+            "thorough: the same cases again under the race detector.")
     trusted_base = ("Coq 8.16.1 kernel (vm_compute used, native_compute not)", "extraction (ExtrOcamlBasic only) + ocaml/driver.ml",
                     "vlib generators/comparator, Go overlay harness (harness/C11): scripted process/client fakes, goroutine-dump "
                     "detection of 'parked in WaitGroup.Wait', known-flaky trie hit counters as setOutcome counters",
@@ -172,7 +247,9 @@ class C11(Prop):
                     "(whenDone runs synchronously); process.go is modelled as a timed state machine (C11_Proc.v) whose os/exec "
                     "part (Cancel = SIGTERM at cancellation; kill and pipe close WaitDelay later; Wait waits for the copy "
                     "goroutines) is written from the os/exec documentation and checked against the real thing only on the "
-                    "children a test binary can play (no unkillable real process: that part runs over a scripted OS)")
+                    "children a test binary can play (no unkillable real process: that part runs over a scripted OS)",
+                    "internal/printer.go is modelled as a lock-step machine (one step per write / lock operation); fmt's "
+                    "formatting of the message is outside the model (a call is the pair prefix, formatted message)")
     assumptions = ("the client runner fires every registered callback exactly once and none for a request whose sendRequest "
                    "returned an error (C10); a callback not fired during the send loop fires while the function waits",
                    "stderr of the reference server is ASCII (strings.TrimSpace's Unicode classes are not modelled)",
@@ -199,7 +276,13 @@ class C11(Prop):
                   "takes the request or lets go of its stdin by EXITING (dead before the first byte, after k bytes, after any "
                   "delay), the write of the request returns (done or failed) and the function returns within that delay + the "
                   "response time-out + both waits, with process.go's plumbing as it is (start_fault_bounded_code); a plumbing "
-                  "that closes the pipe on neither occasion never wakes the writer (unwoken_write_never). Model tied to "
+                  "that closes the pipe on neither occasion never wakes the writer (unwoken_write_never). Glue: the printer "
+                  "through which a reference server writes feedback (safePrinter.PrefixPrintf as a lock-step machine) emits, "
+                  "for ALL programs and ALL schedules, whole lines 'prefix: message' of exactly the submitted calls, prefix "
+                  "verbatim (printer_lines_atomic), so the stderr parser attributes every feedback line to the case it was "
+                  "printed for and passes the others through whole (printer_feedback_attributed); the server's response is "
+                  "read with the server's size limit, which is the smaller of the two regenerated limits: above it the start "
+                  "fails at the prefix with a setup error for every case (limits_wired). Model tied to "
                   "server_runner.go / process.go by an exhaustive fault-point differential run and real child processes.")
     level_note = ("Trusted: Coq kernel, extraction, OCaml driver, harness. Model-code correspondence is sampled (every fault "
                   "point and every callback timing vector for batches <= 5; ~130 process scripts), not proved. results.go, "
@@ -212,7 +295,10 @@ class C11(Prop):
                   "stays alive while a write of the request is pending blocks the function for ever (not reachable through "
                   "Run(): its requests are a few KB, written right after cmd.Start); a child that keeps its stdin open without "
                   "reading a request larger than the pipe takes blocks the write in code and model alike and is outside "
-                  "start_fault_bounded's hypothesis (lets_go); neither is generated beyond the two known-finding cases.")
+                  "start_fault_bounded's hypothesis (lets_go); neither is generated beyond the two known-finding cases. "
+                  "c11.printer observes records and passed-through lines only under the precondition that makes them "
+                  "schedule-independent (clean calls, one line per case); detection of a non-atomic printer relies on the "
+                  "Go mutex's hand-off mode (26 of 26 sleeping-writer cases under seed C11-18), not on a forced schedule.")
     technique = ("Coq proofs by induction over arbitrary fault scripts (permutation invariant of the outcome log), timed "
                  "state machine for process.go with constants regenerated from the code; differential model-vs-Go on scripted "
                  "fakes at every fault point and on real re-executed child processes run concurrently")
@@ -223,6 +309,11 @@ class C11(Prop):
             r = core.parse_sx("(" + res + ")")[0]
         except Exception:
             return False
+        if case[0] == "c11.limit":
+            return isinstance(r, list) and len(r) == 3 and r[1] == 1
+        if case[0] == "c11.printer":
+            return isinstance(r, list) and len(r) >= 1 and all(isinstance(x, list) and len(x) == 2 for x in r) and \
+                any(sb for sb in r[0][0]) and len(r[0][1]) >= 1
         if case[0] == "c11.proc" and case[1] == 5:
             return isinstance(r, list) and len(r) == 6 and r[0] == 1 and (r[4] + r[5] > 0 or case[3][9] == 0)
         if case[0] == "c11.proc":
@@ -245,6 +336,17 @@ class C11(Prop):
         return None
 
     def describe(self, case, g, m):
+        if case[0] == "c11.limit":
+            return ("runTestCasesForServer over a server whose response announces %d bytes: outcomes / 'stdout read beyond "
+                    "the 4 prefix bytes' differ from the model, in which the server's response is read with the SERVER "
+                    "limit (maxServerResponseSize, regenerated; theorem limits_wired): above it the read fails at the prefix "
+                    "and every case is a setup error, whatever follows" % case[1])
+        if case[0] == "c11.printer":
+            return ("feedback lines printed concurrently through the real internal.NewPrinter (PrefixPrintf(test name, ...)) "
+                    "into the stderr that the real runTestCasesForServer parses: side-band records / passed-through lines "
+                    "are not those of the submitted 'test name: message' lines (proved for every schedule of an atomic "
+                    "printer: printer_lines_atomic, printer_feedback_attributed) - a line was split, merged, or its "
+                    "test name was not copied verbatim")
         if case[0] == "c11.proc" and case[1] == 5:
             try:
                 r = core.parse_sx("(" + g + ")")[0]
@@ -362,6 +464,9 @@ class C11(Prop):
             s = bytes(rng.choice(b"S/ab: \n\r\tTc:  x") for _ in range(rng.randint(0, 40)))
             yield mk(cs(3), refsrv=1, stderr=s, chunk=rng.choice([1, 3, 4096]), wait=rng.choice([None, b""]))
         # names that contain ": ", that are prefixes of each other, empty
+        pct = ["Pct/100%", "Pct/%s done", "Pct/50%d", "Pct/%%", "Pct/%v", "Pct/%"]
+        for s in [b"Pct/100%: m\n", b"Pct/%s done: got %d\nPct/%%: x\n", b"Pct/50%d: a: b\r\nPct/%: \n", b"Pct/%: z\nPct/%v : y\nPct/%!: no\n"]:
+            yield mk(cs(6, names=pct), refsrv=1, stderr=s, chunk=rng.choice([1, 3, 4096]))
         odd = ["A: b", "A", "A: b: c", "", " lead", "trail "]
         for s in [b"A: b: c: d\n", b"A: b\n", b": x\n", b"A: b: c\n", b"lead: x\n", b"trail : y\n", b" lead: z\n"]:
             yield mk(cs(6, names=odd), refsrv=1, stderr=s)
@@ -410,6 +515,9 @@ class C11(Prop):
         yield from proc_cases(rng)
         # (g) the start phase over real children that exit / close their stdin before, while or after the request is written
         yield from start_cases(tier)
+        # (h) glue: which size limit the response read gets; the real printer in front of the real stderr parser
+        yield from limit_cases(rng, tier)
+        yield from printer_cases(rng, tier)
 
     # ------------------------------------------------------------------
     def durations(self):
